@@ -493,7 +493,13 @@ func (w *World) linearizable() {
 	for _, l := range w.logs {
 		var hist []porcupine.Operation
 		for _, o := range w.ops {
-			if o.Log != l || o.Abandoned || !o.Checked || o.Kind == "getlogs" {
+			if o.Log != l || !o.Checked || o.Kind == "getlogs" {
+				continue
+			}
+			o.mu.Lock()
+			committed := o.Committed
+			o.mu.Unlock()
+			if o.Abandoned && !(o.Kind == "update" && committed) {
 				continue
 			}
 			in := pcIn{update: o.Kind == "update"}
@@ -513,7 +519,15 @@ func (w *World) linearizable() {
 			if in.update && o.Outcome == "err" && o.CommitReached && o.CommitFaulted {
 				out.maybe = true
 			}
-			hist = append(hist, porcupine.Operation{ClientId: o.ID, Input: in, Call: o.CallT, Output: out, Return: o.RetT})
+			ret := o.RetT
+			if o.Abandoned {
+				// in flight when the witness crashed, after its COMMIT had gone through (only the lockstep spec can hold
+				// an operation there): nobody saw an answer, the update may take effect at any point from its call on
+				out = pcOut{class: "err", maybe: true}
+				ret = int64(2*s.Step() + 3)
+				s.Probe("crash.after-commit")
+			}
+			hist = append(hist, porcupine.Operation{ClientId: o.ID, Input: in, Call: o.CallT, Output: out, Return: ret})
 		}
 		if len(hist) == 0 {
 			continue
